@@ -25,9 +25,11 @@ MANIFEST = {
  "note": "Trusted: Lean kernel; the interposition harness (static link: socket/socketpair/accept4/pipe2/open/openat/dup*/"
          "fcntl/eventfd/epoll_create1/inotify_init1/close/recvmsg/syscall defined in the harness); /proc/self/fd; clang/ASan. "
          "Descriptors created behind libc (mkostemp) are seen through /proc diffs only. Not modelled: uv_loop_fork, kqueue/"
-         "macOS paths, SQPOLL io_uring ring (UV_USE_IO_URING), thread-pool (async) fs requests, fork failure, ENOMEM in "
+         "macOS paths, SQPOLL io_uring ring (UV_USE_IO_URING), thread-pool (async) fs requests, ENOMEM in "
          "uv__stream_queue_fd (C16), real ttys (no /dev/pts in the sandbox: uv_tty_init covered for pipe/socket fds only). "
-         "Readiness order between several simultaneously ready servers is avoided by the generator.",
+         "Readiness order between several simultaneously ready servers is avoided by the generator. The harness is built "
+         "twice, against the assert-enabled and the -DNDEBUG library (an assertion that stops a wrong close in one build "
+         "lets it through in the other); fork() refusals (EAGAIN/ENOMEM) are injected like the descriptor syscalls.",
  "design": "DESIGN.md §3 C15",
  "technique": "Lean 4 proof over executable model + correspondence (whole-library syscall interposition, fault injection) + monitors",
 }
@@ -134,7 +136,7 @@ class Gen:
             kind = rng.choice(["tcpsock", "udpsock", "unixsock", "pipe", "sockpair", "sockpair", "file"])
             at = ""
             if (b == "stdio" or rng.below(4) == 0) and not any(self.own.get(f"f{i}") for i in ()):
-                at = " at=" + str(rng.below(2))
+                at = " at=" + str(rng.below(3))
             new = self.emit(f"ufd {kind}{at}")
             if at and new:
                 self.stdio_placed.add(new[0])
@@ -363,7 +365,8 @@ class Gen:
             c3 = cont() if rng.below(3) == 0 else "-"
             if c3 == "i":
                 c3 = "-"
-            inj = self.maybe_fail([("socketpair", 1, [24]), ("socketpair", 2, [24, 23]), ("pipe2", 1, [24])], 3)
+            inj = self.maybe_fail([("socketpair", 1, [24]), ("socketpair", 2, [24, 23]), ("socketpair", 3, [24]), ("pipe2", 1, [24, 23]),
+                                   ("fork", 1, [11, 12]), ("fork", 1, [11])], 3)
             self.emit(*inj, f"spawn {rng.choice(['ok', 'ok', 'ok', 'missing'])} {c0} {c2} {c3}")
             if rng.below(2):
                 self.emit("run")
@@ -398,6 +401,46 @@ class Gen:
         return "\n".join(self.lines) + "\n"
 
 
+# ----------------------------------------------------------------------------- exhaustive small scopes
+def stdio_matrix():
+    """every handle type that can wrap a caller's descriptor x every kind of descriptor it accepts x the descriptor sitting
+    on number 0, 1, 2 or an ordinary number: wrap, uv_close, run, loop_close; judged by the monitors (the descriptor is
+    still open, still the same open file, nobody called close on 0-2) and diffed against the model"""
+    pairs = [("tcp", "tcpsock"), ("pipe", "unixsock"), ("pipe", "pipe"), ("pipe", "sockpair"), ("udp", "udpsock"),
+             ("tty", "tcpsock"), ("tty", "pipe"), ("tty", "unixsock"), ("poll", "tcpsock"), ("poll", "udpsock"), ("poll", "pipe")]
+    progs = []
+    for hk, fk in pairs:
+        for at in ("", " at=0", " at=1", " at=2"):
+            ls = [f"ufd {fk}{at}", "loop_init"]
+            if hk in ("tcp", "pipe", "udp"):
+                ls += [{"tcp": "tcp_init unspec", "pipe": "pipe_init 0", "udp": "udp_init unspec"}[hk], "open h0 f0"]
+            else:
+                ls += [f"{hk}_init f0"]
+            ls += ["close h0", "run", "loop_close", "end"]
+            progs.append("\n".join(ls) + "\n")
+    return progs
+
+
+def spawn_fault_matrix():
+    """uv_spawn over stdio shapes x {no fault, each socketpair of the stdio set-up, the exec-synchronisation pipe, fork()
+    refused with EAGAIN / ENOMEM} x {program exists, exec fails}: ledger after the call, after closing everything, at the end"""
+    shapes = [("h0", "i", "-", 1), ("h0", "h1", "-", 2), ("i", "h0", "h1", 2), ("h0", "h1", "h2", 3), ("f0", "h0", "-", 1), ("i", "i", "-", 0)]
+    progs = []
+    for c0, c2, c3, np in shapes:
+        faults = [None, ("pipe2", 1, 24), ("fork", 1, 11), ("fork", 1, 12)] + [("socketpair", k, 24) for k in range(1, np + 1)]
+        for f in faults:
+            for exe in ("ok", "missing"):
+                if exe == "missing" and f and f[0] != "fork":
+                    continue
+                ls = ["ufd pipe"] if c0 == "f0" else []
+                ls += ["loop_init"] + ["pipe_init 0"] * np
+                if f:
+                    ls.append(f"fail {f[0]} {f[1]} {f[2]}")
+                ls += [f"spawn {exe} {c0} {c2} {c3}", "run"] + [f"close h{i}" for i in range(np)] + ["run", "loop_close", "end"]
+                progs.append("\n".join(ls) + "\n")
+    return progs
+
+
 # ----------------------------------------------------------------------------- running and judging one program
 def strip(out):
     return [l for l in out.splitlines() if not l.startswith("#") and not l.startswith("done ")]
@@ -424,19 +467,21 @@ def judge(ctx, prog, rc, out, err):
     """returns (monitor_violations [(sig, what)], impl_lines)"""
     lines = strip(out)
     viols = []
-    cur = ckind = ""
+    cur = ckind = cstdio = ""
     for l in out.splitlines():
         if l.startswith("op "):
-            cur = l[3:]; ckind = ""
+            cur = l[3:]; ckind = cstdio = ""
         elif l.startswith("# close kind="):
             ckind = l.split("=")[1]
+        elif l.startswith("# close stdio="):
+            cstdio = l.split("=")[1]
         elif l.startswith("MONITOR "):
             kind = l.split()[1]
             opname = cur.split()[0] if cur else "?"
             sig = f"{kind.lower()}-in-{opname}"
             if kind == "FOREIGN-CLOSE" and opname == "spawn" and "double close" in l:
                 sig = KNOWN_SIGS["spawn"]
-            if kind in ("STDIO-CLOSE", "FD-VANISHED") and opname == "close":
+            if kind in ("STDIO-CLOSE", "FD-VANISHED", "FD-REPLACED") and opname == "close":
                 sig = KNOWN_SIGS["udp-stdio"] if ckind == "udp" else "stdio-fd-closed-by-uv_close"
             if kind == "LEAK" and opname == "loop_init":
                 sig = KNOWN_SIGS["loop-init"]
@@ -444,7 +489,7 @@ def judge(ctx, prog, rc, out, err):
     if rc not in (0, 3) or not any(l.startswith("done ") for l in out.splitlines()):
         opname = cur.split()[0] if cur else "start"
         sig = f"crash-in-{opname}"
-        if opname == "close" and "STDERR_FILENO" in err:
+        if opname == "close" and ("STDERR_FILENO" in err or cstdio):   # (with a caller descriptor on number 2 the message is lost)
             sig = KNOWN_SIGS["udp-stdio"] if ckind == "udp" else "stdio-fd-closed-by-uv_close"
         tail = " | ".join(err.strip().splitlines()[:6])[:500]
         viols.append((sig, f"harness died (rc={rc}) during `{cur}`: {tail}"))
@@ -479,17 +524,17 @@ def shrink(ctx, exe, prog, sig):
     return "\n".join(lines) + "\n"
 
 
-def check_program(ctx, exe, prog, idx, stats, do_diff=True):
+def check_program(ctx, exe, prog, idx, stats, do_diff=True, variant="asan"):
     rc, out, err = run_case(ctx, exe, prog, idx)
     viols, impl = judge(ctx, prog, rc, out, err)
     ctx.count()
     for sig, what in viols:
         if sig in ctx.known or any(v["sig"] == sig for v in ctx.violations):
-            ctx.violation(sig, what, {"program": prog})
+            ctx.violation(sig, what, {"program": prog, "variant": variant})
             continue
         # shrinking is expensive: do it for the first few signatures only
         small = shrink(ctx, exe, prog, sig) if len(ctx.violations) < 3 else prog
-        ctx.violation(sig, what, {"program": small, "full_program": prog})
+        ctx.violation(sig, what, {"program": small, "full_program": prog, "variant": variant})
     fired = sum(1 for l in impl if l.startswith("env fail "))
     stats["faults_fired"] += fired
     stats["api_calls"] += sum(1 for l in impl if l.startswith("op "))
@@ -531,13 +576,16 @@ def run(ctx):
                         "the application does not hand a descriptor to two handles (uv_*_open precondition)"]
     proofs_ok = ctx.require_lean(["UvModel.Props.C15"])
     exe = ctx.harness("c15_sim", ["harness/c15_sim.c"], link_lib=True)
+    # the same harness against the -DNDEBUG library: assert(fd > STDERR_FILENO) in uv__close and friends is compiled out there
+    exe_nd = ctx.harness("c15_sim_nd", ["harness/c15_sim.c"], variant="asan-ndebug", link_lib=True) if exe else None
     stats = {"faults_fired": 0, "api_calls": 0, "fd_created": 0, "fd_closed": 0, "children_checked": 0, "ops": {}, "faults": {}}
     ctx.notes["stats"] = stats
     if exe is None:
         return
     if ctx.replay:
         rp = json.loads(Path(ctx.replay).read_text())["replay"]
-        v, d = check_program(ctx, exe, rp["program"], 0, stats)
+        nd = rp.get("variant") == "asan-ndebug" and exe_nd is not None
+        v, d = check_program(ctx, exe_nd if nd else exe, rp["program"], 0, stats, variant="asan-ndebug" if nd else "asan")
         if d:
             ctx.broken_correspondence("fdledger", f"{d[0]}: {d[1]}")
         return
@@ -554,7 +602,10 @@ def run(ctx):
     def mk(i):
         return Gen(ctx, seeds[i], seeds[i].range(8, maxops), biases[i % len(biases)]).build()
     def go(ip):
-        return check_program(ctx, exe, ip[1], ip[0], stats)
+        r = check_program(ctx, exe, ip[1], ip[0], stats)
+        if exe_nd is not None and ip[0] % 3 == 2 and ip[0] < 100000:      # every third program also on the NDEBUG build
+            check_program(ctx, exe_nd, ip[1], 400000 + ip[0], stats, do_diff=False, variant="asan-ndebug")
+        return r
     diffs = []
     def run_batch(batch, base):
         with ThreadPoolExecutor(min(NCPU, 12)) as ex:
@@ -564,6 +615,18 @@ def run(ctx):
                 if base + i < 3:
                     ctx.sample({"program": prog.split("\n")[:40]})
     run_batch(progs, 0)
+    # exhaustive small scopes, on both library variants
+    small = stdio_matrix() + spawn_fault_matrix()
+    run_batch(small, 200000)
+    if exe_nd is not None:
+        def go_nd(ip):
+            return check_program(ctx, exe_nd, ip[1], ip[0], stats, variant="asan-ndebug")
+        with ThreadPoolExecutor(min(NCPU, 12)) as ex:
+            for prog, (v, d) in zip(small, ex.map(go_nd, [(300000 + k, p) for k, p in enumerate(small)])):
+                if d:
+                    diffs.append((prog, d))
+    ctx.notes["small_scopes"] = {"stdio_matrix": len(stdio_matrix()), "spawn_fault_matrix": len(spawn_fault_matrix()),
+                                 "variants": ["asan", "asan-ndebug"] if exe_nd is not None else ["asan"]}
     # generated programs in chunks, under a wall-clock budget (the machine may be shared): the number actually
     # evaluated is recorded
     budget = ctx.scale(35, 480)
